@@ -914,6 +914,20 @@ func c06ConnectGen(g *hx.Gen) {
 			}
 		}
 	}
+	// the exact-name site's address written with capitals (Addr.Original as written, TLS.Hostname lower case as the
+	// loader derives it) beside a wildcard / catch-all / unrelated site: routing and TLS lookup still meet the same site
+	for _, k1 := range []string{"B.A.COM:443", "B.a.com:443", "b.A.Com:443"} {
+		for _, h2 := range []string{"*.a.com", "", "0.0.0.0", "c.org", "*.*.com"} {
+			for p1 := range policies {
+				for p2 := range policies {
+					for _, n := range []string{"b.a.com", "B.A.com", "x.a.com"} {
+						emit([]c01Site{mk(k1), mk(h2 + ":443")}, []c06Cfg{policies[p1], policies[p2]}, n, "/")
+						emit([]c01Site{mk(h2 + ":443"), mk(k1)}, []c06Cfg{policies[p2], policies[p1]}, n, "/")
+					}
+				}
+			}
+		}
+	}
 	// the catch-all aliases must agree among themselves (repaired alias class) and with routing
 	for _, trio := range [][]string{{":443", "0.0.0.0:443", "[::]:443"}, {"[::]:443", ":443"}, {"0.0.0.0:443/x", ":443"}} {
 		for p1 := range policies {
@@ -938,7 +952,14 @@ func c06ConnectGen(g *hx.Gen) {
 		sites := make([]c01Site, n)
 		cs := make([]c06Cfg, n)
 		for i := range sites {
-			sites[i] = mk(hx.Pick(g.Rng, hostPats) + hx.Pick(g.Rng, []string{"", ":443", ":443/x", "/x/y"}))
+			key := hx.Pick(g.Rng, hostPats) + hx.Pick(g.Rng, []string{"", ":443", ":443/x", "/x/y"})
+			if g.Rng.Chance(1, 4) {
+				// the address written with capitals: Addr.Original keeps them, TLS.Hostname is what the loader derives (lower case)
+				hp := strings.SplitN(key, "/", 2)
+				hp[0] = strings.ToUpper(hp[0])
+				key = strings.Join(hp, "/")
+			}
+			sites[i] = mk(key)
 			cs[i] = policies[g.Rng.Intn(len(policies))]
 			if g.Rng.Chance(3, 5) {
 				cs[i] = policies[0]
